@@ -10,11 +10,14 @@ ASSUMPTIONS = [
 ]
 
 Q_SETUP = SETUP + '''
+class Abort(BaseException):
+    """round 5: a failure that is not an Exception subclass (like KeyboardInterrupt); CrossHair never raises this class"""
+FAILEXC = ValueError
 def mkq(level, base, wrong):
     def q(d):
         m = d[4]
         if m == 2 * level - 1:
-            raise ValueError("injected failure at level %d" % level)
+            raise FAILEXC("injected failure at level %d" % level)
         if m == 2 * level:
             return wrong
         return base(d)
@@ -71,7 +74,7 @@ def build(chain):
     return expr, "\n".join(lines), depth
 
 
-def failing(chain, n, timeout=60):
+def failing(chain, n, timeout=60, base=False):
     expr, qlines, depth = build(chain)
     params, pre, recs = [], [], []
     for i in range(1, n + 1):
@@ -94,7 +97,7 @@ for d in data:
     before = J(h)
     try:
         h.fill(d)
-    except Exception:
+    except (Exception, Abort):
         if not jsame(J(h), before): return "failing-fill-changed-state"
         continue
     if d[4] == 0: survivors.append(d)
@@ -104,9 +107,10 @@ if not jeq(J(h), J(twin)): return "final-state-differs-from-surviving-records"
 """
     name = ">".join(chain)
     return Harness(
-        f"C12/fail/{name}/n{n}", params, " and ".join(pre), body, timeout=timeout,
-        setup=Q_SETUP + qlines + f"\nMK = lambda: {expr}\n", tree=expr,
-        bounds=f"tree={name}; stream n={n}; routing values symbolic in [-2,2); failure selector per record in 0..{2 * depth}",
+        f"C12/{'fail-base' if base else 'fail'}/{name}/n{n}", params, " and ".join(pre), body, timeout=timeout,
+        setup=Q_SETUP + ("FAILEXC = Abort\n" if base else "") + qlines + f"\nMK = lambda: {expr}\n", tree=expr,
+        bounds=f"tree={name}; stream n={n}; routing values symbolic in [-2,2); failure selector per record in 0..{2 * depth}"
+        + ("; the raising quantity raises a BaseException-only class" if base else ""),
     )
 
 
@@ -186,6 +190,10 @@ def harnesses(tier):
         pairs = [p for i, p in enumerate(pairs) if i % 3 == 0]
     for c1, c2 in pairs:
         out.append(failing([c1, c2, "Sum"], 1 if tier == "quick" else 2, timeout=60 if tier == "quick" else 300))
+    for c in CONT:  # round 5: failures that `except Exception` does not see
+        out.append(failing([c, "Sum"], 2, timeout=60 if tier == "quick" else 200, base=True))
+        out.append(failing([c, "Bin", "Sum"] if c != "Bin" else [c, "Categorize", "Sum"], 1 if tier == "quick" else 2,
+                           timeout=60 if tier == "quick" else 300, base=True))
     if tier == "thorough":
         for c in CONT:
             out.append(failing([c, "Sum"], 3, timeout=300))
